@@ -296,3 +296,175 @@ def typed_empty_local(P, st, v, fr):
         containers._register_fresh(P, s)
         return s
     raise InterpError(f'local_types[{st.target.id}] = {lt}: not a map/set type matching the literal')
+
+
+# ------------------------------------------------------- Fraction(float)
+
+def fraction_of_float(P, x):
+    """Fraction(x) for a symbolic binary64 x: ValueError for NaN, OverflowError for an infinity, else the exact
+    value (-1)^s * c * 2^exp of the IEEE 754 layout.  The value is written with the spec vocabulary of
+    spec/c05.py (t_val_q(trip(x)): f64_sign / f64_exp / f64_c), so specs about the same float share its terms."""
+    from .interp import SymRaise, mk_exc
+    e = (x.bits / (1 << 52)) % 2048
+    m = x.bits % (1 << 52)
+    if P.branch(simp(z3.And(e == 2047, m != 0)), 'Fraction(nan)'):
+        raise SymRaise(mk_exc('ValueError'), 'Fraction(nan)')
+    if P.branch(simp(e == 2047), 'Fraction(inf)'):
+        raise SymRaise(mk_exc('OverflowError'), 'Fraction(inf)')
+    trip = P.global_value('spec.c05', 'trip')
+    tval = P.global_value('spec.c05', 't_val_q')
+    return P.call(tval, [P.call(trip, [x], {})], {})
+
+
+# ------------------------------------------------- any(... for x in <symbolic set>)
+
+class SymSetImage:
+    """a generator expression `elt(x) for x in S` over a symbolic set: only consumed by any() / all()"""
+    __slots__ = ('set', 'fn')
+
+    def __init__(self, s, fn):
+        self.set = s
+        self.fn = fn
+
+
+def comp_over_symset(P, node, fr, it):
+    """hook of interp._comp: a single generator without conditions over a symbolic set"""
+    if len(node.generators) != 1 or node.generators[0].ifs or not isinstance(node.generators[0].target, ast.Name):
+        raise Unsupported('comprehension over a symbolic set (only `f(x) for x in S` inside any()/all())')
+    g = node.generators[0]
+    from .interp import Frame
+
+    def fn(key):
+        inner = Frame(fr.module, fr.fn, fr.cls, parent=fr)
+        P.new_dict(inner.locals)
+        inner.locals[g.target.id] = key
+        return P.truthy(P.ev(node.elt, inner))
+    return SymSetImage(it, fn)
+
+
+def _quant_image(P, img, exists):
+    from .interp import MergeAbort
+    s = img.set
+    P.counter += 1
+    x = z3.Const(f'k!any{P.counter}', key_sort(s.kname))
+    saved = P.merge_inner
+    top = not P.txns
+    if top:
+        P.merge_inner = None
+    t = P._begin()
+    try:
+        try:
+            v = img.fn(SymKey(x, s.kname))
+        except MergeAbort:
+            raise Unsupported('any()/all() over a symbolic set: the element expression forks or has side effects')
+    finally:
+        P._rollback(t)
+        if top:
+            P.merge_inner = saved
+    v = as_z3bool(v) if not isinstance(v, bool) else z3.BoolVal(v)
+    if exists:
+        return simp(z3.Exists([x], z3.And(_b(s.member(x)), v)))
+    return simp(z3.ForAll([x], z3.Implies(_b(s.member(x)), v)))
+
+
+def any_image(P, img):
+    return _quant_image(P, img, True)
+
+
+def all_image(P, img):
+    return _quant_image(P, img, False)
+
+
+# ------------------------------------------------------- while-loop rule
+
+def _while_loops(fn_node):
+    ws = [n for n in ast.walk(fn_node) if isinstance(n, ast.While)]
+    ws.sort(key=lambda n: (n.lineno, n.col_offset))
+    return ws
+
+
+def _while_inv(P, st, fr):
+    c = P.ex.current
+    info = fr.fn
+    if c is None or info is None or info.qualname != c.target or P.txns:
+        return None, None
+    ws = _while_loops(info.node)
+    if st not in ws:
+        return None, None
+    idx = ws.index(st)
+    return c.ci.methods.get(f'winv{idx}'), idx
+
+
+def has_while_invariant(P, st, fr):
+    return _while_inv(P, st, fr)[0] is not None
+
+
+def while_rule(P, st, fr):
+    """
+    `while cond: body` in the target with the contract's invariant winv<k>(<locals in scope at the loop>[, old]):
+      winv-init : the invariant holds on entry
+      then      : havoc every location the body assigns (syntactic targets; contract options
+                  while_types = {k: {'self.f': 'T'}} re-types a havoced field, while_binds = {k: {'a.b': 'c.d'}} makes a
+                  havoced field the SAME object as another path), assume the invariant, decide cond:
+      winv-step : cond holds: run the body once, prove the invariant (the path ends); `return` / `raise` leave normally
+      exit      : cond fails: continue after the loop
+    """
+    import types as _types
+    from .interp import _Break, _Continue, Lazy
+    from .containers import _Havoc, LoopStepDone
+    ex = P.ex
+    c = ex.current
+    inv, idx = _while_inv(P, st, fr)
+    if st.orelse:
+        raise Unsupported('while rule: while-else')
+    short = c.short
+    shim = _types.SimpleNamespace(body=st.body, target=ast.Tuple(elts=[], ctx=ast.Store()))
+    hv = _Havoc(P, fr, shim, (c.opts.get('while_modifies') or {}).get(idx, []))
+
+    def clauses():
+        b = {k: v for k, v in fr.locals.items() if not k.startswith('#')}
+        for k in list(b):
+            if isinstance(b[k], Lazy):
+                b[k] = fr.locals[k] = P.force(b[k])
+        names = [a.arg for a in inv.node.args.args]
+        miss = [n for n in names if n not in ('old', 'self') and n not in b]
+        if miss:
+            raise InterpError(f'{inv.qualname}: parameters {miss} are not locals in scope at the loop')
+        return ex._call_spec(P, inv, b, {'old': getattr(P, 'old', None)})
+
+    for k, cond in clauses().items():
+        P.oblige(f'{short}#winv{idx}-init[{k}]', 'inv', P.truthy(cond))
+    tag = f'while{idx}'
+    hv.apply(tag)
+    for path, tstr in ((c.opts.get('while_types') or {}).get(idx, {})).items():
+        node = ast.parse(path, mode='eval').body
+        o = P.ev(node.value, fr)
+        o.fields[node.attr] = P.fresh(ex.types.parse_str(tstr, fr.module.name), P.fresh_name(f'{path}@{tag}'))
+    for path, src in ((c.opts.get('while_binds') or {}).get(idx, {})).items():
+        node = ast.parse(path, mode='eval').body
+        o = P.ev(node.value, fr)
+        o.fields[node.attr] = P.ev(ast.parse(src, mode='eval').body, fr)
+    for k, cond in clauses().items():
+        P.assume(P.truthy(cond), fact=True)
+    if not P.branch(P.truthy(P.ev(st.test, fr)), f'{tag}-cond'):
+        return
+    prev = P.loop_guard
+    P.loop_guard = {'allowed': hv.allowed(), 'fresh': set(), 'keep': []}
+    try:
+        try:
+            P.exec_block(st.body, fr)
+        except _Continue:
+            pass
+        except _Break:
+            raise Unsupported('while rule: break')
+    finally:
+        P.loop_guard = prev
+    for k, cond in clauses().items():
+        P.oblige(f'{short}#winv{idx}-step[{k}]', 'inv', P.truthy(cond))
+    raise LoopStepDone()
+
+
+class CompOverSymSet(Exception):
+    """control: a comprehension over a symbolic set evaluates to a SymSetImage"""
+    def __init__(self, image):
+        self.image = image
